@@ -184,14 +184,11 @@ func (t *TrafBox) Info(w io.Writer, specificBoxLevels, indent, indentStep string
 func (t *TrafBox) OptimizeTfhdTrun() error {
 	tfhd := t.Tfhd
 	trun := t.Trun
-	if tfhd == nil || trun == nil {
-		return errors.New("tfhd or trun box missing in traf")
+	if tfhd == nil {
+		return errors.New("tfhd box missing in traf")
 	}
-	if len(trun.Samples) == 0 {
-		return errors.New("no samples in trun")
-	}
-	if len(trun.Samples) == 1 {
-		return nil // No need to optimize
+	if trun == nil || len(trun.Samples) <= 1 {
+		return nil // Nothing to optimize
 	}
 
 	if trun.HasSampleDuration() {
